@@ -12,45 +12,50 @@ EXTENDS WireMp, WireOpen, WireComm, TLCExt, Json
 CONSTANTS FAMILY      \* which vector family this run enumerates: "upd", "updvar", "cor", "open", "openrt", "notif", "rr", "ka"
 
 VARIABLE vec
-UpdVecs == {[kind |-> "upd", asn4 |-> TRUE, var |-> Canon, u |-> u] : u \in UpdatePool(TRUE)}
+UpdVecs(lazy) == {[kind |-> "upd", asn4 |-> TRUE, var |-> Canon, u |-> u] : u \in UpdatePool(TRUE)}
            \cup {[kind |-> "upd", asn4 |-> FALSE, var |-> Canon, u |-> u] : u \in UpdatePool(FALSE)}
-Many == {x \in UpdatePool(TRUE) : Len(x.attrs) >= 4}
-Many2 == {x \in UpdatePool(FALSE) : Len(x.attrs) >= 4}
-VarVecs == {[kind |-> "updvar", asn4 |-> TRUE, var |-> v, u |-> u] : v \in Variants \ {Canon}, u \in UpdatePool(TRUE)}
+WideVecs(lazy) == {[kind |-> "upd", asn4 |-> TRUE, var |-> Canon, u |-> u] : u \in WidePool(TRUE)}
+            \cup {[kind |-> "upd", asn4 |-> FALSE, var |-> Canon, u |-> u] : u \in WidePool(FALSE)}
+WideVarVecs(lazy) == {[kind |-> "updvar", asn4 |-> a, var |-> [ext |-> TRUE, dirty |-> TRUE, pathids |-> FALSE], u |-> u] : a \in BOOLEAN, u \in WidePool(TRUE) \cap WidePool(FALSE)}
+               \cup {[kind |-> "updvar", asn4 |-> TRUE, var |-> Canon, u |-> [u EXCEPT !.attrs = Reverse(u.attrs)]] : u \in WidePool(TRUE)}
+Many(lazy) == {x \in UpdatePool(TRUE) : Len(x.attrs) >= 4}
+Many2(lazy) == {x \in UpdatePool(FALSE) : Len(x.attrs) >= 4}
+VarVecs(lazy) == {[kind |-> "updvar", asn4 |-> TRUE, var |-> v, u |-> u] : v \in Variants \ {Canon}, u \in UpdatePool(TRUE)}
            \cup {[kind |-> "updvar", asn4 |-> FALSE, var |-> v, u |-> u] : v \in Variants \ {Canon}, u \in UpdatePool(FALSE)}
            \cup {[kind |-> "updvar", asn4 |-> FALSE, var |-> v, u |-> u] : v \in {Canon, [ext |-> TRUE, dirty |-> FALSE, pathids |-> FALSE]}, u \in DecodeOnly}
            \cup UNION {{[kind |-> "updvar", asn4 |-> FALSE, var |-> Canon, u |-> [u EXCEPT !.attrs = ordr]] : ordr \in Orders(u.attrs)} : u \in DecodeOnly}
-           \cup UNION {{[kind |-> "updvar", asn4 |-> FALSE, var |-> Canon, u |-> [u EXCEPT !.attrs = ordr]] : ordr \in {Reverse(u.attrs), Rotate(u.attrs)}} : u \in Many2}
-           \cup {[kind |-> "updvar", asn4 |-> TRUE, var |-> Canon, u |-> [u EXCEPT !.attrs = Reverse(u.attrs)]] : u \in Many}
-           \cup {[kind |-> "updvar", asn4 |-> TRUE, var |-> Canon, u |-> [u EXCEPT !.attrs = Rotate(u.attrs)]] : u \in Many}
-CorVecs == {[kind |-> "cor", asn4 |-> TRUE, var |-> Canon, u |-> c] : c \in Corruptions}
+           \cup UNION {{[kind |-> "updvar", asn4 |-> FALSE, var |-> Canon, u |-> [u EXCEPT !.attrs = ordr]] : ordr \in {Reverse(u.attrs), Rotate(u.attrs)}} : u \in Many2(0)}
+           \cup {[kind |-> "updvar", asn4 |-> TRUE, var |-> Canon, u |-> [u EXCEPT !.attrs = Reverse(u.attrs)]] : u \in Many(0)}
+           \cup {[kind |-> "updvar", asn4 |-> TRUE, var |-> Canon, u |-> [u EXCEPT !.attrs = Rotate(u.attrs)]] : u \in Many(0)}
+CorVecs(lazy) == {[kind |-> "cor", asn4 |-> TRUE, var |-> Canon, u |-> c] : c \in Corruptions}
 \* C15: per list kind, single elements of every width the format allows (element = its octets)
 El(kind, o) == [kind |-> "elem", list |-> kind, o |-> o]
-ElemVecs ==
+ElemVecs(lazy) ==
    {El("v4prefix", EncPrefix(p)) : p \in AllLen4} \cup {El("v6prefix", EncPrefix(p)) : p \in AllLen6}
    \cup {El("lu4", EncLu(m.routes[1], TRUE)) : m \in {x \in LuPool("lu4") : x.reach /\ Len(x.routes) = 1 /\ x.routes[1].labels[Len(x.routes[1].labels)] # 0}}
    \cup {El("lu6", EncLu(m.routes[1], TRUE)) : m \in {x \in LuPool("lu6") : x.reach /\ Len(x.routes) = 1 /\ x.routes[1].labels[Len(x.routes[1].labels)] # 0}}
    \cup {El("vpn4", EncVpn(m.routes[1], TRUE)) : m \in {x \in VpnPool("vpn4") : x.reach /\ Len(x.routes) = 1}}
    \cup {El("vpn6", EncVpn(m.routes[1], TRUE)) : m \in {x \in VpnPool("vpn6") : x.reach /\ Len(x.routes) = 1}}
-   \cup {El("evpn", EncEvpn(e)) : e \in EvpnRoutes}
-   \cup {El("fsrule", EncRule(r)) : r \in FsRules}
-   \cup {El("comm", x.o) : x \in StdPool} \cup {El("extcomm", x.o) : x \in ExtPool} \cup {El("large", x.o) : x \in LargePool}
+   \cup {El("evpn", EncEvpn(e)) : e \in EvpnRoutes(0)}
+   \cup {El("fsrule", EncRule(r)) : r \in FsRules(0)}
+   \cup {El("comm", x.o) : x \in StdPool(0)} \cup {El("extcomm", x.o) : x \in ExtPool(0)} \cup {El("large", x.o) : x \in LargePool(0)}
    \cup {El("cluster", i) : i \in Ips \cup {<<1, 2, 3, 4>>}}
    \cup {El("asseg4", EncSeg(sg, TRUE)) : sg \in {Seg(st, as) : st \in 1..4, as \in {<<<<0, 1>>>>, <<<<1, 0>>, <<0, 7>>>>, LongAs(3)}}}
    \cup {El("asseg2", EncSeg(sg, FALSE)) : sg \in {Seg(st, as) : st \in 1..4, as \in {<<<<0, 1>>>>, <<<<0, 65535>>, <<0, 7>>>>, LongAs(3)}}}
    \cup {El("cap", EncCap(c)) : c \in {CapKinds(<<0, 65002>>)[i] : i \in 1..11} \cup MoreCaps(<<0, 65002>>)}
-OpenVecs == {[kind |-> "open", u |-> o] : o \in {x \in OpenPool : NeedsAs4(x)}}
-OpenRtVecs == {[kind |-> "openrt", u |-> o] : o \in OpenRtPool}
-NotifVecs == {[kind |-> "notif", u |-> n] : n \in NotifPool}
-RRVecs == {[kind |-> "rr", u |-> r] : r \in RRPool}
-Vecs == CASE FAMILY = "upd" -> UpdVecs [] FAMILY = "updvar" -> VarVecs [] FAMILY = "cor" -> CorVecs
-          [] FAMILY = "open" -> OpenVecs [] FAMILY = "openrt" -> OpenRtVecs [] FAMILY = "notif" -> NotifVecs
-          [] FAMILY = "comm" -> {[kind |-> "comm", sub |-> 16, u |-> x] : x \in ExtPool} \cup {[kind |-> "comm", sub |-> 8, u |-> x] : x \in StdPool}
-                                 \cup {[kind |-> "comm", sub |-> 32, u |-> x] : x \in LargePool}
+OpenVecs(lazy) == {[kind |-> "open", u |-> o] : o \in {x \in OpenPool(0) : NeedsAs4(x)}}
+OpenRtVecs(lazy) == {[kind |-> "openrt", u |-> o] : o \in OpenRtPool(0)}
+NotifVecs(lazy) == {[kind |-> "notif", u |-> n] : n \in NotifPool(0)}
+RRVecs(lazy) == {[kind |-> "rr", u |-> r] : r \in RRPool(0)}
+Vecs == CASE FAMILY = "upd" -> UpdVecs(0) [] FAMILY = "updvar" -> VarVecs(0) [] FAMILY = "cor" -> CorVecs(0)
+          [] FAMILY = "updwide" -> WideVecs(0) [] FAMILY = "updvarwide" -> WideVarVecs(0)
+          [] FAMILY = "open" -> OpenVecs(0) [] FAMILY = "openrt" -> OpenRtVecs(0) [] FAMILY = "notif" -> NotifVecs(0)
+          [] FAMILY = "comm" -> {[kind |-> "comm", sub |-> 16, u |-> x] : x \in ExtPool(0)} \cup {[kind |-> "comm", sub |-> 8, u |-> x] : x \in StdPool(0)} \cup {[kind |-> "comm", sub |-> 16, u |-> x] : x \in RawPool(0)}
+                                 \cup {[kind |-> "comm", sub |-> 32, u |-> x] : x \in LargePool(0)}
           [] FAMILY = "updap" -> {[kind |-> "updap", asn4 |-> TRUE, var |-> Canon, u |-> x.u, wids |-> x.wids, nids |-> x.nids] : x \in AddPathVecs}
           [] FAMILY \in {"mp_ipv6", "mp_lu4", "mp_lu6", "mp_vpn4", "mp_vpn6", "mp_evpn", "mp_fs"} -> MpPool(SubSeq(FAMILY, 4, Len(FAMILY)))
-          [] FAMILY = "elems" -> ElemVecs
-          [] FAMILY = "rr" -> RRVecs [] FAMILY = "ka" -> {[kind |-> "ka", u |-> [x |-> 0]]}
+          [] FAMILY = "elems" -> ElemVecs(0)
+          [] FAMILY = "rr" -> RRVecs(0) [] FAMILY = "ka" -> {[kind |-> "ka", u |-> [x |-> 0]]}
 
 Bytes(v) ==
    CASE v.kind = "cor" -> Message(2, v.u.b)
